@@ -10,7 +10,7 @@ from ..core.program import AnalysisError, Program, norm, short, walk_function
 from ..engines.geomval import Cfg, Const, Geo, HDict, Mismatch, Mono, Num, Other, Ref, Top
 from ..report import Result
 from ..runner import Variant
-from . import _infer
+from . import _infer, c12
 
 PROP = "C02"
 EXPLANATION = (
@@ -125,6 +125,8 @@ def check_conv(prog: Program, res: Result) -> None:
 def check(prog: Program, res: Result) -> None:
     check_entries(prog, res, ("single", "topdown"))
     check_conv(prog, res)
+    # crops inherit eff_scale / orig_size / image of the frame their centroid was found in (shared with C12-crop)
+    c12.check_crop(prog, res, rule="C02-frame")
     res.floor("C02-out", 8)
     res.floor("C02-own", 7)
     res.floor("C02-pad", 2)
@@ -138,6 +140,8 @@ Q = "sleap_nn/inference/predictors.py"
 T = "sleap_nn/inference/topdown.py"
 S_ = "sleap_nn/inference/single_instance.py"
 VARIANTS = [
+    Variant("frame-filtered-zip", T, "        for centroid, centroid_val, image, fidx, vidx, sz, eff_sc in zip(\n            self.refined_peaks_batched,",
+            "        kept = [c for c in self.refined_peaks_batched if not torch.isnan(c).all()]\n        for centroid, centroid_val, image, fidx, vidx, sz, eff_sc in zip(\n            kept,", "C02-frame"),
     Variant("d6-labels-no-preprocess", Q, "            ][\"max_stride\"]\n\n            self.preprocess = True\n            self.preprocess_config = {\n                \"batch_size\": self.batch_size,\n                \"scale\": self.confmap_config.data_config.preprocessing.scale,",
             "            ][\"max_stride\"]\n\n            self.preprocess = False\n            self.preprocess_config = {\n                \"batch_size\": self.batch_size,\n                \"scale\": self.confmap_config.data_config.preprocessing.scale,", "C02-o"),
     Variant("d8-crops-before-resize", T, "                self.refined_peaks_batched = scaled_refined_peaks\n                crops_dict = self._generate_crops(inputs)\n                return crops_dict\n            else:\n                return inputs",
